@@ -12,19 +12,25 @@ pub mod c14;
 pub mod c15;
 pub mod c16;
 pub mod c20;
+pub mod reader_props;
 
 pub fn run(prop: &str, ctx: &mut Ctx) -> bool {
     match prop {
         "C01" => c01::run(ctx),
+        "C02" => reader_props::run_c02(ctx),
         "C03" => c03::run(ctx),
         "C04" => c04::run(ctx),
+        "C05" => reader_props::run_c05(ctx),
         "C07" => c07::run(ctx),
         "C08" => c08::run(ctx),
+        "C09" => reader_props::run_c09(ctx),
         "C10" => c10::run(ctx),
         "C11" => c11::run(ctx),
+        "C13" => reader_props::run_c13(ctx),
         "C14" => c14::run(ctx),
         "C15" => c15::run(ctx),
         "C16" => c16::run(ctx),
+        "C18" => reader_props::run_c18(ctx),
         "C20" => c20::run(ctx),
         _ => return false,
     }
@@ -46,6 +52,7 @@ pub fn replay(prop: &str, ctx: &mut Ctx, file: &J) {
         "C15" => c15::replay(ctx, &case),
         "C16" => c16::replay(ctx, &case),
         "C20" => c20::replay(ctx, &case),
+        "C02" | "C05" | "C09" | "C13" | "C18" => reader_props::replay(prop, ctx, &case),
         _ => {}
     }
 }
